@@ -25,6 +25,7 @@ import (
 	"github.com/attestantio/vouch/util"
 	"github.com/attestantio/vouch/verifmc/mc"
 	"github.com/attestantio/vouch/verifmc/mcontext"
+	"github.com/attestantio/vouch/verifmc/mtime"
 	"github.com/rs/zerolog"
 	e2wtypes "github.com/wealdtech/go-eth2-wallet-types/v2"
 )
@@ -111,10 +112,18 @@ type c11Relay struct {
 func (r *c11Relay) Name() string              { return "relay" }
 func (r *c11Relay) Address() string           { return r.addr }
 func (r *c11Relay) Pubkey() *phase0.BLSPubKey { return nil }
-func (r *c11Relay) SubmitValidatorRegistrations(_ context.Context, opts *builderapi.SubmitValidatorRegistrationsOpts) error {
+func (r *c11Relay) SubmitValidatorRegistrations(ctx context.Context, opts *builderapi.SubmitValidatorRegistrationsOpts) error {
 	mc.Yield()
 	if r.env.failing == "relay1" && r.addr == c11R1 {
 		return errors.New("scripted relay failure")
+	}
+	if r.addr == c11R2 {
+		// the second relay takes a second to answer and, like an HTTP client, gives up when its request
+		// context is cancelled
+		t := mtime.After(time.Second)
+		if sel := mc.Select(false, mc.RecvCase(ctx.Done()), mc.RecvCase(t)); sel.Index == 0 {
+			return ctx.Err()
+		}
 	}
 	for _, x := range opts.Registrations {
 		if x == nil || x.V1 == nil || x.V1.Message == nil {
@@ -258,7 +267,9 @@ func c11Units(tier string) []hx.Unit {
 					e.accts[i] = newAccount("W", fmt.Sprintf("v%d", i), byte(i))
 					byIndex[phase0.ValidatorIndex(i)] = e.accts[i]
 				}
-				accts := &accountsTable{byIndex: byIndex}
+				// validator 3 is about to be active: its activation epoch is the next epoch (the current slot is
+				// 100, epoch 3); registrations and preparations are owed for it as for the others
+				accts := &accountsTable{byIndex: byIndex, activeFrom: map[phase0.ValidatorIndex]phase0.Epoch{3: 4}}
 				e.doc = docs[d0].name
 				ctx, cancel := mcontext.WithCancel(context.Background())
 				defer cancel()
@@ -476,7 +487,7 @@ func init() {
 	hx.Register(&hx.Prop{
 		ID:    "C11",
 		Title: "Relays and beacon nodes are told exactly what the configuration says",
-		Rule: "histories of 1..3 registration rounds on the real block relay + proposal preparer with 3 validators, 2 relays, 2 beacon nodes: per round the configuration in force (5 documents: plain, relay gas-limit override, proposer entry with own fee recipient and a disabled relay, single relay, one validator unresolvable) x failing party (none, relay 1, node 1, signer for validator 2, signer for the registrations that carry the raised gas limit of one relay, node 1 reporting not-active), a refresh preceding each round; then REST registrations for a controlled and an uncontrolled validator; fan-out goroutines under deviation-bounded schedules (quick 0, thorough 1); " +
+		Rule: "histories of 1..3 registration rounds on the real block relay + proposal preparer with 3 validators (one of them pending, active from the next epoch), 2 relays (the second answering after 1 s and giving up on a cancelled request), 2 beacon nodes: per round the configuration in force (5 documents: plain, relay gas-limit override, proposer entry with own fee recipient and a disabled relay, single relay, one validator unresolvable) x failing party (none, relay 1, node 1, signer for validator 2, signer for the registrations that carry the raised gas limit of one relay, node 1 reporting not-active), a refresh preceding each round; then REST registrations for a controlled and an uncontrolled validator; fan-out goroutines under deviation-bounded schedules (quick 0, thorough 1); " +
 			"oracle: per round and relay exactly one registration per resolved validator with the resolved fee recipient / gas limit and a signature produced for exactly that content, a preparation per validator and node with the resolved fee recipient, other parties unaffected by a failing one; non-trivial = more than one round, a failing party or a proposer-specific document",
 		Assumptions: []string{
 			"expected settings per document are written out by hand from the documented precedence (C10 checks the resolver itself)",
